@@ -27,7 +27,44 @@ def _ramp(k: int) -> bytes:
     return r
 
 
+FLAVOURS = False  # set per case by the worker from spec["flavours"]: some units then hold content of a special shape (below)
+
+
+def flavour(key: int) -> str | None:
+    """Content flavour of unit `key` when FLAVOURS is on — a pure function of the key, so image and model agree:
+    about 9 % of the units start with 20 all-zero sectors ('zero-head': data that begins like a hole), 5 % are entirely zero and
+    3 % entirely 0xFF (stored data that equals what a reader would synthesise)."""
+    if not FLAVOURS:
+        return None
+    h = ((key & 0xFFFFFFFFFFFFFFFF) * 0x9E3779B97F4A7C15 >> 24) & 0xFF
+    if h < 24:
+        return "zero-head"
+    if h < 36:
+        return "zero"
+    if h < 44:
+        return "ff"
+    return None
+
+
 def pattern(key: int, off: int, n: int) -> bytes:
+    fl = flavour(key) if FLAVOURS else None
+    if fl is None:
+        return _pattern(key, off, n)
+    if n <= 0:
+        return b""
+    if fl == "zero":
+        return bytes(n)
+    if fl == "ff":
+        return b"\xff" * n
+    head = 20 * SECTOR
+    # zero-head
+    if off >= head:
+        return _pattern(key, off, n)
+    z = min(n, head - off)
+    return bytes(z) + (_pattern(key, off + z, n - z) if n > z else b"")
+
+
+def _pattern(key: int, off: int, n: int) -> bytes:
     """Bytes [off, off+n) of the infinite pattern stream of unit `key`.
 
     Every 512-byte sector is pack('<QQ', key, sector_index) + a byte ramp that
